@@ -76,6 +76,29 @@ class Report:
       return None
     return self.check(bool(verdict), rule, subject, func, construct, message, loc, detail, nontrivial)
 
+  def check_term(self, ok, term, vocabulary, rule, subject, func, construct, message, loc, detail='', nontrivial=True, fields=None):
+    """Pattern obligation on an expression (`term`: AST or source text).  ok -> discharged.  Otherwise a violation only
+    when the term is a closed term over `vocabulary` (a recognised different computation); a term that still reads
+    unresolved names (helpers, table entries, locals the expansion left open) is not decided."""
+    if ok:
+      return self.check(True, rule, subject, func, construct, message, loc, detail, nontrivial)
+    import ast as _ast
+    from mmsa import au as _au
+    t = term
+    if isinstance(t, str):
+      try:
+        t = _ast.parse(t, mode='eval').body
+      except SyntaxError:
+        t = None
+    if t is None:
+      self.undecided(rule, subject, 'the construct is missing or not an expression', loc)
+      return None
+    al = _au.aliens(t, vocabulary, fields=fields)
+    if al:
+      self.undecided(rule, subject, 'the term reads names the expansion did not resolve (%s): %s' % (', '.join(al[:4]), construct[:80]), loc)
+      return None
+    return self.check(False, rule, subject, func, construct, message, loc, detail, nontrivial)
+
   def check(self, cond, rule, subject, func, construct, message, loc, detail='', nontrivial=True):
     if cond:
       self.ok(rule, subject, detail, loc, nontrivial)
